@@ -24,7 +24,7 @@
 (***************************************************************************)
 EXTENDS PT_Terms, SequencesExt
 
-CONSTANT SrcTab(_)      \* source id -> [name, alias, kind]   kind in "table", "subq", "cte"
+CONSTANT SrcTab(_)      \* source id -> [name, alias, kind]   kind in "table", "subq", "cte", "setop"
 
 Alias(t) == IF "al" \in DOMAIN t THEN t.al ELSE ""
 SrcQual(s) == IF SrcTab(s).alias # "" THEN SrcTab(s).alias ELSE SrcTab(s).name
